@@ -44,6 +44,10 @@ def _render(node, indent, inflow):
     pad = " " * indent
     if "s" in node:
         return scalar_text(node["s"]), "", []
+    if "x" in node:  # raw inline (flow style) text, e.g. a python/* tagged node
+        return node["x"] + (" " if inflow else ""), "", []
+    if "mk" in node:  # mapping with complex keys: always flow style
+        return "{" + ", ".join("? " + _render(k, indent, True)[0] + " : " + _render(v, indent, True)[0] for k, v in node["mk"]) + "}", "", []
     if "r" in node:
         return "*" + node["r"], "", []
     if "a" in node:
@@ -89,12 +93,13 @@ def _render(node, indent, inflow):
     raise ValueError("bad node %r" % (node,))
 
 
-def emit_document(root):
-    """root: mapping node -> YAML text"""
+def emit_document(root, directives=""):
+    """root: mapping node -> YAML text; directives: e.g. '%TAG !py! tag:yaml.org,2002:python/' (adds the --- marker)"""
+    head = directives + "\n---\n" if directives else ""
     inline, prefix, lines = _render(root, 0, False)
     if inline is not None:
-        return inline + "\n"
-    return ("--- " + prefix + "\n" if prefix else "") + "\n".join(lines) + "\n"
+        return head + inline + "\n"
+    return head + ("--- " + prefix + "\n" if prefix and not head else "") + "\n".join(lines) + "\n"
 
 
 # ---------------------------------------------------------------------------- strategies
